@@ -18,8 +18,16 @@ def sh(cmd, cwd=None, env=None, timeout=900):
     return p.returncode, (p.stdout + p.stderr)
 
 
+ROOT = os.environ.get("SEED_ROOT", "/tmp/seed")
+TAG = os.environ.get("SEED_TAG", "")
+
+
+def sid(prop, k):
+    return "%s-%s%d" % (prop, (TAG + "-") if TAG else "", k)
+
+
 def confirm(prop, k, slot):
-    src = "/tmp/seed/%s" % prop
+    src = "%s/%s" % (ROOT, prop)
     patch = os.path.join(src, "seed%d.patch" % k)
     demo = os.path.join(src, "demo%d.py" % k)
     if not (os.path.exists(patch) and os.path.exists(demo)):
@@ -29,11 +37,11 @@ def confirm(prop, k, slot):
         os.makedirs("/tmp/verify", exist_ok=True)
         rc, out = sh("git -C /repo worktree add -q --detach %s HEAD" % wt)
         if rc:
-            return {"id": "%s-%d" % (prop, k), "confirmed": False, "why": "worktree: " + out}
+            return {"id": sid(prop, k), "confirmed": False, "why": "worktree: " + out}
     sh("git checkout -q --detach main && git checkout -- . && git clean -fdq", cwd=wt)
     env = {"PYTHONPATH": wt + "/src"}
     shutil.copy(demo, os.path.join(wt, "demo.py"))
-    res = {"id": "%s-%d" % (prop, k), "property": prop}
+    res = {"id": sid(prop, k), "property": prop, "k": k}
     rc0, out0 = sh("/venv/bin/python demo.py", cwd=wt, env=env, timeout=600)
     res["demo_clean"] = {"exit": rc0, "tail": out0[-300:]}
     rc, out = sh("git apply %s" % patch, cwd=wt)
@@ -91,8 +99,8 @@ def main():
         sv = static_verdicts(diff, built)
         det = sorted(p for p, v in sv.items() if isinstance(v, dict) and v.get("status") == "violation")
         err = sorted(p for p, v in sv.items() if isinstance(v, dict) and v.get("status") == "error")
-        prop, k = r["id"].split("-")
-        src = "/tmp/seed/%s" % prop
+        prop, k = r["property"], str(r["k"])
+        src = "%s/%s" % (ROOT, prop)
         try:
             meta = json.load(open(os.path.join(src, "meta%s.json" % k)))
         except Exception:
